@@ -15,7 +15,7 @@ FIELDS = ['0', '00', '1', '7', '12', '45', '59', '60', '61', '93', '99']
 FIELDS_BIG = ['100', '104', '999']
 DECS = ['', '0', '5', '05', '99', '999']
 JUNK = ['', ' ', 'abc', '1a', '-5', '1:2:3:4', '1::2', ':', '.', '1.2.3', '1,2,3', '1e3', 'DNF', 'NT', '１２', '٣', '1:', ':1', '1 2', '12:', '1:2:', 'inf', 'nan', '0x10']
-GENDERS = ['all', 'm', 'f', 'M', 'x']
+GENDERS = ['all', 'm', 'f', 'M', 'x', '', 'W', 'Female']
 PRECS = [None, 0, 1, 2, 3]
 
 
